@@ -720,7 +720,7 @@ func TestVerifNhsim(t *testing.T) {
 	switch mode {
 	case "hist":
 		rec.keep = func(ev string) bool {
-			return ev != "Send" && ev != "Save" && ev != "Enter" && ev != "Exit" && ev != "Boot" && ev != "SMNew"
+			return ev != "Send" && ev != "Save" && ev != "Enter" && ev != "Exit" && ev != "Boot" && ev != "SMNew" && ev != "Apply"
 		}
 	case "pipe":
 		rec.keep = func(ev string) bool { return ev != "Enter" && ev != "Exit" && ev != "SMNew" }
@@ -730,14 +730,14 @@ func TestVerifNhsim(t *testing.T) {
 		}
 	case "import":
 		rec.keep = func(ev string) bool {
-			return ev != "Send" && ev != "Save" && ev != "Enter" && ev != "Exit" && ev != "Inv" && ev != "Res" && ev != "Leader" && ev != "Boot"
+			return ev != "Send" && ev != "Save" && ev != "Enter" && ev != "Exit" && ev != "Inv" && ev != "Res" && ev != "Leader" && ev != "Boot" && ev != "Apply"
 		}
 	case "snap":
 		rec.keep = func(ev string) bool {
-			return ev != "Send" && ev != "Save" && ev != "Enter" && ev != "Exit" && ev != "Inv" && ev != "Res" && ev != "Leader"
+			return ev != "Send" && ev != "Save" && ev != "Enter" && ev != "Exit" && ev != "Inv" && ev != "Res" && ev != "Leader" && ev != "Apply"
 		}
 	case "smc":
-		rec.keep = func(ev string) bool { return ev != "Send" && ev != "Save" && ev != "Boot" }
+		rec.keep = func(ev string) bool { return ev != "Send" && ev != "Save" && ev != "Boot" && ev != "Apply" }
 	}
 	sms := []string{"regular", "concurrent", "ondisk"}
 	for k := 0; k < traces; k++ {
